@@ -55,6 +55,7 @@ class Level:
         self.path = path
         self.handles: List[Any] = []
         self.last_entries: List[Any] = []
+        self.links: Dict[int, Any] = {}
         self.children: List[Optional["Level"]] = []
         self.mnodes: List[M.MNode] = []
 
@@ -248,8 +249,13 @@ def _add_step(built: Built, level: Level, stack: List[Level], i: int, step: Dict
     else:
         rel = step.get("rel")
         relation = None
-        if rel is not None:
+        if rel is not None and step.get("share_link_of") is not None and level.links.get(step["share_link_of"]) is not None:
+            # the SAME RelationLink instance as an earlier step (links are immutable value objects and may be shared between operations)
+            relation = level.links[step["share_link_of"]]
+            built.count("operations_sharing_a_link_instance")
+        elif rel is not None:
             relation = RelationLink(_reference(built, level, rel[1]), RelationType[rel[0]])
+        level.links[i] = relation
         op = make_op(step, ctx, stack, relation)
         handle = circuit.add(op)
         if handle is not op:
